@@ -663,3 +663,76 @@ Definition chk_C06w (c : chain_case) (o : op) (ok : bool) (prev cur : val) : lis
   | _ => []
   end.
 Definition mon_C06w (c : chain_case) (obs : val) : list Z := (mon_C06 c obs ++ mon_steps chk_C06w c obs)%list.
+
+(* ---------- C02: a withdrawal pays exactly floor(reserve * burned / supply) per asset ----------
+   (the exact pro-rata floor is what the repaired code pays; it is within the property's [pro-rata - 1, pro-rata] window) *)
+Definition chk_C02w (c : chain_case) (o : op) (ok : bool) (prev cur : val) : list Z :=
+  if negb ok then [] else
+  match o with
+  | Tx sender target (WPm (PmWithdraw pid)) [(lp, amt)] =>
+      if negb (String.eqb target PM) || negb (is_user c sender) then [] else
+      match find_pool prev pid, find_pool cur pid with
+      | Some p, Some q =>
+          let s0 := supply_of c prev lp in
+          if negb (String.eqb (pool_lp p) lp) || (s0 <=? 0) || existsb (fun a => String.eqb (fst a) lp) (pool_assets p) then [] else
+          if forallb (fun a =>
+                        let refund := snd a * amt / s0 in
+                        (match find (fun b => String.eqb (fst b) (fst a)) (pool_assets q) with
+                         | Some b => snd b =? snd a - refund | None => false end) &&
+                        (match balance_of c prev sender (fst a), balance_of c cur sender (fst a) with
+                         | Some b0, Some b1 => b1 - b0 =? refund | _, _ => true end)) (pool_assets p) &&
+             (supply_of c cur lp =? s0 - amt)
+          then [] else [2]
+      | _, _ => [2]
+      end
+  | _ => []
+  end.
+Definition mon_C02w (c : chain_case) (obs : val) : list Z := (mon_C02 c obs ++ mon_steps chk_C02w c obs)%list.
+
+(* ---------- C11: a farm's recorded budget is what the farm manager actually received ----------
+   expansion: the budget grows by exactly the attached amount, which the farm manager's balance gains, and the end moves by
+   amount / rate epochs; creation (when no expired farm is swept in the same transaction): the new farm's budget is what the
+   farm manager's balance gained in the reward denom, and the creator paid exactly budget + what the fee collector gained *)
+Definition fm_balance_of (c : chain_case) (s : val) (d : string) : Z :=
+  match find (fun dj => String.eqb (fst dj) d) (combine (denoms_of_snapshot c s) (balance_row s 3)) with
+  | Some dj => snd dj | None => 0 end.
+Definition fc_balance_of (c : chain_case) (s : val) (d : string) : Z :=
+  match find (fun dj => String.eqb (fst dj) d) (combine (denoms_of_snapshot c s) (balance_row s 1)) with
+  | Some dj => snd dj | None => 0 end.
+Definition farm_ids (s : val) : list string := map (fun f => vgetS (vnth 0 f)) (snap_farms s).
+Definition chk_C11c (c : chain_case) (o : op) (ok : bool) (prev cur : val) : list Z :=
+  if negb ok then [] else
+  match o with
+  | Tx sender target (WFm (FmExpandFarm fp)) [(d, amt)] =>
+      if negb (String.eqb target FM) then [] else
+      match fp_id fp with
+      | Some id =>
+          match find_farm prev id, find_farm cur id with
+          | Some f, Some g =>
+              let rate := vgetZ (vnth 5 f) in
+              if (vgetZ (vnth 1 (vnth 3 g)) =? vgetZ (vnth 1 (vnth 3 f)) + amt) && String.eqb (vgetS (vnth 0 (vnth 3 f))) d &&
+                 (fm_balance_of c cur d =? fm_balance_of c prev d + amt) &&
+                 (if rate =? 0 then true else vgetZ (vnth 7 g) =? vgetZ (vnth 7 f) + amt / rate)
+              then [] else [11]
+          | _, _ => [11]
+          end
+      | None => [11]
+      end
+  | Tx sender target (WFm (FmCreateFarm fp)) funds =>
+      if negb (String.eqb target FM) || negb (is_user c sender) then [] else
+      (* no farm swept: every farm of before is still there *)
+      if negb (forallb (fun id => existsb (String.eqb id) (farm_ids cur)) (farm_ids prev)) then [] else
+      match filter (fun g => negb (existsb (String.eqb (vgetS (vnth 0 g))) (farm_ids prev))) (snap_farms cur) with
+      | [g] =>
+          let d := vgetS (vnth 0 (vnth 3 g)) in let budget := vgetZ (vnth 1 (vnth 3 g)) in
+          if (fm_balance_of c cur d =? fm_balance_of c prev d + budget) &&
+             forallb (fun dn => match balance_of c prev sender dn, balance_of c cur sender dn with
+                                | Some b0, Some b1 =>
+                                    b0 - b1 =? (if String.eqb dn d then budget else 0) + (fc_balance_of c cur dn - fc_balance_of c prev dn)
+                                | _, _ => true end) (denoms_of_snapshot c prev)
+          then [] else [11]
+      | _ => [11]
+      end
+  | _ => []
+  end.
+Definition mon_C11c (c : chain_case) (obs : val) : list Z := (mon_C11 c obs ++ mon_steps chk_C11c c obs)%list.
